@@ -627,7 +627,7 @@ void bloom_filter_alloc<A>::internal_update(uint64_t h0, uint64_t h1) {
     throw std::logic_error("Cannot update a read-only filter");
   }
   const uint64_t num_bits = get_capacity();
-  for (uint16_t i = 1; i <= num_hashes_; i++) {
+  for (uint32_t i = 1; i <= num_hashes_; i++) {
     const uint64_t hash_index = ((h0 + i * h1) >> 1) % num_bits;
     bit_array_ops::set_bit(bit_array_, hash_index);
   }
@@ -729,7 +729,7 @@ bool bloom_filter_alloc<A>::internal_query_and_update(uint64_t h0, uint64_t h1) 
   }
   const uint64_t num_bits = get_capacity();
   bool value_exists = true;
-  for (uint16_t i = 1; i <= num_hashes_; i++) {
+  for (uint32_t i = 1; i <= num_hashes_; i++) {
     const uint64_t hash_index = ((h0 + i * h1) >> 1) % num_bits;
     bool value = bit_array_ops::get_and_set_bit(bit_array_, hash_index);
     update_num_bits_set(num_bits_set_ + (value ? 0 : 1));
@@ -826,7 +826,7 @@ template<typename A>
 bool bloom_filter_alloc<A>::internal_query(uint64_t h0, uint64_t h1) const {
   if (is_empty()) return false;
   const uint64_t num_bits = get_capacity();
-  for (uint16_t i = 1; i <= num_hashes_; i++) {
+  for (uint32_t i = 1; i <= num_hashes_; i++) {
     const uint64_t hash_index = ((h0 + i * h1) >> 1) % num_bits;
     if (!bit_array_ops::get_bit(bit_array_, hash_index))
       return false;
